@@ -11,7 +11,8 @@
 //	                                         (see dumpGeom), Relate both ways, the nine predicates both ways
 //	                                         in the order Equals Disjoint Touches Contains Covers Within
 //	                                         CoveredBy Crosses Overlaps (1 | 0 | e error | p panic); rel0/preds0: the
-//	                                         same for the pair without the added empty collection member ("-" if none)
+//	                                         same for the pair without the added empty collection member ("-" if none);
+//	                                         last field: the labelled overlay behind Relate(a,b) ("-" without the hook)
 package main
 
 import (
@@ -532,6 +533,31 @@ func kindToType(k int) geom.GeometryType {
 
 // ---------------------------------------------------------------------------- observations
 
+// overlayDump exports the labelled overlay behind Relate(a,b) through the optional hook
+// geom/verif_hooks_relate.go (build tag verif); "-" without the hook, for an empty operand or on panic.
+var overlaysDumped int
+
+func overlayDump(a, b geom.Geometry) (s string) {
+	s = "-"
+	if a.IsEmpty() || b.IsEmpty() {
+		return
+	}
+	h, ok := interface{}(a).(interface {
+		VerifRelateOverlay(geom.Geometry) string
+	})
+	if !ok {
+		return
+	}
+	defer func() {
+		if recover() != nil {
+			s = "-"
+		}
+	}()
+	s = h.VerifRelateOverlay(b)
+	overlaysDumped++
+	return
+}
+
 func relate(a, b geom.Geometry) (s string) {
 	defer func() {
 		if recover() != nil {
@@ -748,10 +774,14 @@ func main() {
 		classes[class]++
 		kinds[names[ka]+"x"+names[kb]]++
 		grids[g]++
-		fmt.Fprintf(w, "%d\tPR\t%s\t%s\t%s\t%s\t%s\t%s\t%s\t%d%d\t%s\n", next(), class, dump(A), dump(B),
-			relate(A, B), relate(B, A), preds(A, B), preds(B, A), va, vb, base)
+		ov := "-"
+		if va == 1 && vb == 1 {
+			ov = overlayDump(A, B)
+		}
+		fmt.Fprintf(w, "%d\tPR\t%s\t%s\t%s\t%s\t%s\t%s\t%s\t%d%d\t%s\t%s\n", next(), class, dump(A), dump(B),
+			relate(A, B), relate(B, A), preds(A, B), preds(B, A), va, vb, base, ov)
 	}
 	js, _ := json.Marshal(map[string]interface{}{"classes": classes, "type_pairs": kinds, "grid_side": grids,
-		"affine_moved_pairs": xformed, "matcher_patterns": len(patterns), "matcher_matrices": total, "matcher_strings": nStr})
+		"affine_moved_pairs": xformed, "overlays_dumped_through_hook": overlaysDumped, "matcher_patterns": len(patterns), "matcher_matrices": total, "matcher_strings": nStr})
 	fmt.Fprintf(w, "#GEN\t%s\n", js)
 }
